@@ -86,9 +86,26 @@ class Gen:
 def cases(tier, r):
   for _ in range(700 if tier == 'quick' else 12000):
     yield 'partial', {'seed': r.getrandbits(48), 'depth': r.choice([1, 2, 3]), 'ncalls': 3 if tier == 'quick' else 5}
+  for i in range(len(FIXED)):
+    yield 'fixed', {'fixed': i}
+
+
+def _fixed_nan():
+  # leaves that are not equal to themselves (NaN) in literal containers NEXT TO an argument factory:
+  # the containers without a factory are still handed over uncopied, on every call
+  nan = float('nan')
+  af = lambda: fdl.ArgFactory(fn_for(0, 'af'))
+  cfg = fdl.Partial(fn_for(0, 'fx'), p=[[0.5, nan], af()], q={'a': {'n': nan, 'm': [nan]}, 'b': af()},
+                    r=([nan], (nan, [1]), af()))
+  return cfg, [([], {}), ([], {}), ([], {'q': Tok(3001)})]
+
+
+FIXED = [_fixed_nan]
 
 
 def make(case):
+  if 'fixed' in case:
+    return FIXED[case['fixed']]()
   r = random.Random(case['seed'])
   g = Gen(r)
   cfg = g.buildable(fdl.Partial, case['depth'], top=True)
